@@ -178,7 +178,7 @@ def build_model():
         if rc != 0:
             return False, exe, o + e
         shutil.copy(os.path.join(VERIF, "ocaml", "driver.ml"), os.path.join(ex, "driver.ml"))
-        rc, o, e = sh("ocamlfind ocamlopt -package zarith -linkpkg -w -a -inline 100 "
+        rc, o, e = sh("ocamlfind ocamlopt -package zarith,unix -linkpkg -w -a -inline 100 "
                       "model.mli model.ml driver.ml -o ../model.exe", cwd=ex, timeout=1200)
         if rc != 0:
             return False, exe, o + e
@@ -443,3 +443,51 @@ def finish(ctx, spec):
         ctx.pid, "FAIL" if nviol else "ok", ctx.tier, ctx.seed, ctx.evaluations, len(ctx.distinct),
         cov["discharged"], cov["obligations"], time.time() - ctx.t0))
     return 1 if nviol else 0
+
+
+# ---------------------------------------------------------------- correspondence helper
+
+def model_env():
+    e = dict(os.environ)
+    e["VERIF_CRS_CACHE"] = os.path.join(BUILD, "crs.cache")
+    return e
+
+
+def diff(ctx, lines, what, classes=None, nontrivial=None, tags=("verif",), race=False, cpus=None,
+         gomaxprocs=None, norm=None, shards=None, keyfn=None, impl_env=None, impl_prefix=None,
+         model_lines=None):
+    """run the same case lines on the implementation and on the extracted model, compare,
+    account for coverage. returns (impl_out, model_out)."""
+    if not lines:
+        return [], []
+    h = ctx.harness(tags=tags, race=race)
+    m = ctx.model()
+    with ThreadPoolExecutor(max_workers=2) as ex:
+        fi = ex.submit(run_lines, h, lines, impl_env, cpus, shards, 3000, gomaxprocs, impl_prefix)
+        fm = ex.submit(run_lines, m, model_lines or lines, model_env(), None, shards)
+        impl, mod = fi.result(), fm.result()
+    for i, o in enumerate(mod):
+        if o.startswith(("EXC", "CRASH", "HANG", "ERR unknown", "MODEL-INTERNAL")):
+            raise FrameworkError("model failed on case %r: %s" % (lines[i][:200], o[:300]))
+    ctx.compare(lines, impl, mod, what, norm=norm)
+    for i, l in enumerate(lines):
+        k = keyfn(l) if keyfn else l
+        nt = nontrivial[i] if nontrivial is not None else True
+        ctx.count(hashlib.sha1(k.encode()).digest()[:8], nontrivial=nt,
+                  cls=(classes[i] if classes else what))
+    if lines and len(ctx.samples) < 8:
+        j = (len(lines) * 7) // 11
+        ctx.sample({"what": what, "case": lines[j][:600], "impl": impl[j][:300], "model": mod[j][:300]}, maxn=8)
+    return impl, mod
+
+
+def std_replay(ctx, path, tags=("verif",)):
+    obj = json.load(open(path))
+    case = obj["replay"]["case"]
+    impl = run_lines(ctx.harness(tags=tags), [case], shards=1)
+    mod = run_lines(ctx.model(), [case], env=model_env(), shards=1)
+    print("case :", case[:2000])
+    print("impl :", impl[0][:2000])
+    print("model:", mod[0][:2000])
+    ctx.compare([case], impl, mod, "replay")
+    ctx.count(case)
